@@ -31,7 +31,10 @@ class WindowScenario(PipeScenario):
 
     def make_producers(self):
         p = self.params
-        self.add_producer("p", self.src, list(range(1, p["n"] + 1)), mode=p["mode"])
+        items = list(range(1, p["n"] + 1))
+        if p["nodes"][0].startswith("timed_window_unique"):
+            items = [0, 2, 1, 3, 4][:p["n"]]        # the first element of a key is a falsy one
+        self.add_producer("p", self.src, items, mode=p["mode"])
 
     # ---- helpers -------------------------------------------------------------------
     def _events(self):
